@@ -381,6 +381,22 @@ where
         vec.update_pointers()?;
         vec.validate_header()?;
 
+        // The header must not vouch for more bytes than the file actually holds: a file that
+        // was cut short (interrupted sync, truncation) would otherwise expose memory beyond
+        // its content through len()/as_slice()/get().
+        let file_len = std::fs::metadata(&vec.file_path)
+            .map_err(|e| ZiporaError::io_error(&format!("Failed to get file size: {}", e)))?
+            .len();
+        let required = (vec.capacity() as u64)
+            .checked_mul(std::mem::size_of::<T>() as u64)
+            .and_then(|bytes| bytes.checked_add(HEADER_SIZE as u64))
+            .ok_or_else(|| ZiporaError::invalid_data("Header capacity overflows file size"))?;
+        if required > file_len {
+            return Err(ZiporaError::invalid_data(
+                "File is shorter than the capacity declared in its header",
+            ));
+        }
+
         Ok(vec)
     }
 
